@@ -328,7 +328,9 @@ open Varpro
 
 /-- C08: outcome classes on extreme inputs.  Presence / absence of residuals, coefficients and
 Jacobian after build and after an update are replayed on the model (whose SVD oracle is only ever
-called on finite matrices – `c08_svd_guard`); panics and hangs are violations. -/
+called on finite matrices – `c08_svd_guard`; where the harness reports that the implementation's
+routine broke down on a finite matrix, the model's oracle does the same and the model discards the
+decomposition – `c08_nonfinite_sigma_absent`); panics and hangs are violations. -/
 def handleRobust (focus : String) (c : Case) : String := Id.run do
   let _ := focus
   let (acc0, tag0) := stateCore "C08" c
